@@ -190,6 +190,8 @@ def tlc(module, cfg=None, env=None, workers=8, timeout=1200, simulate=None, dept
         if m:
             res.violated.append("TemporalProperty")
             continue
+        if line.startswith("Error: Postcondition"):
+            continue
         if line.startswith("Error:") or "Assumption" in line and "is false" in line:
             res.errors.append(line)
             continue
@@ -212,7 +214,7 @@ def tlc(module, cfg=None, env=None, workers=8, timeout=1200, simulate=None, dept
             res.generated = int(m.group(1))
             res.distinct = res.distinct or res.generated
     completed = ("Model checking completed. No error has been found." in out) or (simulate and "Finished in" in out)
-    postfail = "Postcondition" in out and "violated" in out
+    postfail = re.search(r"Postcondition \S+ .*is false", out) is not None
     if postfail:
         res.violated.append("POSTCONDITION")
     res.ok = bool(completed) and not res.violated and not res.errors
